@@ -17,7 +17,7 @@ FUNCS = [
     cr.combo_runner, cr.combo_runner_core, cr._unflatten, cr._submit, cr._get_result,
     cr._run_linear_executor, cr._run_linear_sequential,
 ]
-ARGN = ("a", "b", "c", "d", "e")
+ARGN = ("c", "a", "b", "e", "d")      # deliberately NOT alphabetical: the order GIVEN is the nesting order
 
 
 def product(lists):
